@@ -416,7 +416,11 @@ func (rc *LRURevisionCache) Remove(ctx context.Context, docID, versionString str
 func (rc *LRURevisionCache) removeValueForFailedLoad(value *revCacheValue) {
 	// Mark removed before acquiring the lock so any concurrent CAS-based increment sees the
 	// terminal state and skips, even if it races with this function.
-	value.memState.Store(memStateRemoved)
+	// A concurrent Put for the same key may have sized this value (and incremented the byte count) between the
+	// failed load and this point, in which case those bytes have to be released with it.
+	if value.memState.Swap(memStateRemoved) == memStateSized {
+		rc.memoryController.decrementBytesCount(value.getItemBytes())
+	}
 	rc.lock.Lock()
 	defer rc.lock.Unlock()
 	var itemRemoved bool
